@@ -269,7 +269,7 @@ def all_jobs(tier):
     jobs = [("ops", "add", a) for a in range(5)] + [("ops", "sub", a) for a in range(5)] + [("ops", "double", a) for a in range(2)] + [("ops", "neg", a) for a in range(2)]
     jobs += [("ops", "reduce", 0), ("ops", "MulBy3", 0), ("ops", "MulBy5", 0), ("ops", "MulBy13", 0), ("ops", "Butterfly", 0), ("ops", "Butterfly", 1)]
     for path in (MUL, MULADX):
-        jobs += [("mul", path, "mul", a) for a in (range(5) if tier == "thorough" else (0, 1, 4))]
+        jobs += [("mul", path, "mul", a) for a in (range(5) if tier == "thorough" else ((0, 4) if path == MUL else (1,)))]
         jobs += [("mul", path, "fromMont", 0)]
     jobs += [("fb", MUL, "mul"), ("fb", MUL, "fromMont")]
     if tier == "thorough":
